@@ -1,5 +1,5 @@
 """C20 operator, wrapper and trait facades agree with the inherent methods."""
-from ..vlib import WIDTHS, tobytes, pairs, values, nlimbs, rand_value, boundary_values
+from ..vlib import WIDTHS, tobytes, pairs, values, nlimbs, rand_value, boundary_values, limb_pattern_pairs
 from . import C01, C02, C03, C05, C06
 
 BINS = ["ux_fac", "ux_arith", "ux_bits"]
@@ -22,6 +22,8 @@ def scenarios(tier, rng):
             n = (60 if quick else 600) if bits <= 576 else (6 if quick else 30)
             ps = pairs(bits, rng, n)
             ps = [(a, b) for a, b in ps if a != b][:n] + [(b, a) for a, b in ps[: n // 3] if a != b] + [(mx, mx), (0, 0), (1, 0), (0, 1)]
+            if bits <= 576:
+                ps += limb_pattern_pairs(bits, rng, 27 if quick else 120)
             vs = values(bits, rng, 4 if quick else 30)
             if bits > 576:
                 vs = vs[:4] + vs[-3:] + [rand_value(rng, bits)]
